@@ -5,7 +5,10 @@ directories) gives the same exact balance for every account, the same date-sorte
 per-date multisets of rows) and the same commodity display precision/style.
 Correspondence: the per-account balances, the number of accepted postings and the final pool
 precision predicted by the extracted model (Model/Journal.v over Model/Xact.v, given the same file
-tree) against ledger's `bal --flat` for every variant."""
+tree) against ledger's `bal --flat` for every variant.
+Layout stream (run_layout): trees of files with apply account / apply tag / alias / bucket / include (relative paths,
+a file included twice), several --file and --master-account: every register row against Model/Layout.read_journal,
+and the same directives laid out as one file / as one file of includes must give the same balances and register."""
 import os, re, itertools, shutil
 from fractions import Fraction as F
 import lib
@@ -15,10 +18,11 @@ META = dict(
     id='C08',
     level='proof',
     technique='Coq proof (Permutation-invariance of account sums over stable transactions, of posting order, of the learned pool precision; include = concatenation) + differential correspondence and metamorphic oracle over permuted / re-split journals',
-    level_text='Theorems in coq/Properties/Properties_C08.v: the balance bal shows is the exact sum of the account\'s postings; permuting transactions that are stable (contribute the same under every pool state and hash order - exactly balanced transactions are) changes no account sum; permuting postings inside an exactly balanced transaction keeps it balanced with the same contributions; the display precision the pool ends with is permutation-invariant in transactions and postings; a tree of included files is processed as the concatenation of its transactions. Outside the fragment acceptance is order dependent (acceptance_order_dependence_refuted, finding F11). Tie to the code: for generated base journals and their variants ledger\'s exact `bal --flat` rows are compared with the model\'s journal_balances on the same file tree, and ledger\'s own outputs are compared across variants.',
-    level_note='Trusted as C01. The include directive is modelled as concatenation in inclusion order (glob expansion and path resolution are not modelled; the harness uses explicit relative includes and one sorted glob). The register comparison across variants is an implementation-only relation (oracle).',
+    level_text='Theorems in coq/Properties/Properties_C08.v: the balance bal shows is the exact sum of the account\'s postings; permuting transactions that are stable (contribute the same under every pool state and hash order - exactly balanced transactions are) changes no account sum; permuting postings inside an exactly balanced transaction keeps it balanced with the same contributions; the display precision the pool ends with is permutation-invariant in transactions and postings; a tree of included files is processed as the concatenation of its transactions. Outside the fragment acceptance is order dependent (acceptance_order_dependence_refuted, finding F11). Tie to the code: for generated base journals and their variants ledger\'s exact `bal --flat` rows are compared with the model\'s journal_balances on the same file tree, and ledger\'s own outputs are compared across variants. File layout under scoping directives (Model/Layout.v): the apply stack belongs to one file (an included file starts from the including file\'s top account, cannot end the includer\'s apply, and what it leaves open ends with it), the alias table and the default account belong to the journal; a piece of a file that closes its own applies can be cut out into an included file without any change (cutting_a_closed_piece_into_an_included_file_changes_nothing), several --file are read as one file including them; the numbers the model computes with are re-read from textual.cc (Gen/LayoutScope.v, layout_scope_is_the_sources) and every register row of generated file trees (account, default account, tags) is compared with read_journal.',
+    level_note='Trusted as C01. The include directive is modelled as concatenation in inclusion order (path resolution is not modelled; the harness writes include paths relative to the including file over child, sibling and parent directories, and globs in the file-name part). The register comparison across variants is an implementation-only relation (oracle).',
     design_ref='DESIGN.md section 7 C08',
-    assumptions=['base journals contain only exactly balanced transactions (explicit amounts or one elided amount), no assertions, automated transactions, apply/alias/bucket/year directives',
+    assumptions=['base journals contain only exactly balanced transactions (explicit amounts or one elided amount), no assertions, automated transactions, apply/alias/bucket/year directives (permutation streams)',
+                 'layout stream: transactions with explicit amounts in one commodity; apply account, apply tag, end apply, alias (one round of expansion), bucket, include, several --file, --master-account; no year directives, no --recursive-aliases',
                  'transactions carry distinct payees so that register rows can be matched across variants'],
 )
 
